@@ -13,6 +13,7 @@ CFGS = [
     ("odd", ["", "example.org.", "Example.IO"], []),
     ("badre", ["example.com"], [r"example\.", "("]),
     ("docre", [], [DOCRE]),
+    ("anyre", [], [r"^(?i)https:"]),    # accepts whatever passes the fixed tests: the host agreement is all that is judged
 ]
 DOMS = [b"example.com", b"good.example", b"lead.example", b"example.net", b"example.org", b"example.io"]
 
